@@ -70,9 +70,13 @@ inductive Policy where
   | raise                   -- valid_read/valid_write raise an error for every path
   | raiseOn (s : CStr)      -- raise an error for exactly this path argument, return 1 otherwise
   | odd (what : String)     -- return an array / float / object / negative int …
+  | readOnly                -- valid_read returns 1, valid_write returns 0
+  | writeOnly               -- valid_read returns 0, valid_write returns 1
+  | roPath (s : CStr)       -- everything allowed, except writing to exactly this path argument
   deriving Repr, DecidableEq
 
-def Policy.verdict (p : Policy) (path : CStr) : Verdict :=
+/-- the master's answer to valid_write (`w = true`) / valid_read for `path` -/
+def Policy.verdict (p : Policy) (w : Bool) (path : CStr) : Verdict :=
   match p with
   | .deny => .deny
   | .allow => .ok
@@ -80,7 +84,10 @@ def Policy.verdict (p : Policy) (path : CStr) : Verdict :=
   | .fixed s => .rewrite s
   | .raise => .raise
   | .raiseOn s => if path = s then .raise else .ok
-  | .odd w => .odd w
+  | .odd x => .odd x
+  | .readOnly => if w then .deny else .ok
+  | .writeOnly => if w then .ok else .deny
+  | .roPath s => if w ∧ path = s then .deny else .ok
 
 /-! ### events -/
 
@@ -137,13 +144,21 @@ def childOf (a p : CStr) : Bool :=
   p.take pre.length == pre &&
     (let x := p.drop pre.length; !('/' ∈ x) && x ≠ dotdot)
 
-/-- the touched path `p` is the approved path `a` itself or one of the paths the efuns derive from it:
-    without trailing slashes (`rename`), with a trailing "/" / "/." removed (`get_dir`), its directory
-    (`get_dir` with a pattern), a direct child (`rename`/`cp` into a directory, `get_dir (…, -1)`), or
-    the temporary file of `save_object` (`%.250s.tmp`). -/
-def covers (a p : CStr) : Bool :=
-  p == a || p == stripTrailSlash a || p == listDir a || p == parentDir (listDir a) ||
-  childOf a p || childOf (listDir a) p || p == a.take 250 ++ str ".tmp"
+/-- the path `p` handed to the libc function `fn` is the approved path `a` itself, or one of the few paths the
+    efuns derive from it — each derivation only for the libc calls that use it:
+    * `rename` / `symlink` source: trailing slashes dropped;
+    * `stat` / `opendir` (`get_dir`): a trailing "/" or "/." removed; `opendir` also of its directory when the last
+      component is a pattern;
+    * `open` / `rename-to` / `symlink-to` (`cp`, `rename`, `link` INTO a directory): a direct child that is not "..";
+    * `fopen` / `rename` / `unlink` (`save_object`): the temporary file `%.250s.tmp`.
+    So e.g. `rm (file)` may not unlink the parent directory or a child of an approved directory. -/
+def covers (fn : String) (a p : CStr) : Bool :=
+  p == a ||
+  ((fn == "rename" || fn == "symlink") && p == stripTrailSlash a) ||
+  ((fn == "stat" || fn == "opendir") && p == listDir a) ||
+  (fn == "opendir" && p == parentDir (listDir a)) ||
+  ((fn == "open" || fn == "rename-to" || fn == "symlink-to") && childOf a p) ||
+  ((fn == "fopen" || fn == "rename" || fn == "unlink") && p == a.take 250 ++ str ".tmp")
 
 /-- operation name each efun has to present to the master -/
 def opNames : List (String × List String) := [
@@ -154,6 +169,7 @@ def opNames : List (String × List String) := [
   ("get_dir", ["stat"]), ("rename", ["rename", "file_size"]), ("link", ["rename", "file_size"]),
   ("cp", ["cp"]), ("save_object", ["save_object"]), ("restore_object", ["restore_object"]),
   ("dumpallobj", ["dumpallobj"]), ("dump_prog", ["dumpallobj"]), ("ed", ["ed_start"])]
+
 
 /-- efuns whose file access is NOT mediated by valid_read/valid_write (compiler: load_object, #include,
     inherit): only confinement is required of them -/
@@ -193,7 +209,7 @@ def approvalOf (w : Bool) (v : Verdict) (path : CStr) : Option Approval :=
     `valid_write` approval, a reading call a `valid_read` one; `stat` (existence / type probe) is also
     accepted on a path approved for writing. -/
 def okBy (fn : String) (w : Bool) (p : CStr) (a : Approval) : Bool :=
-  specLegal a.path && covers a.path p && (if w then a.w else (!a.w || fn == "stat"))
+  specLegal a.path && covers fn a.path p && (if w then a.w else (!a.w || fn == "stat"))
 
 def judgeStep (s : JState) (e : Ev) : JState :=
   match e with
